@@ -373,11 +373,18 @@ class PopulationBalanceModel:
             self.reset(False)
         else:
             oldV = self.ThirdMoment()
+            oldPSD = self.PSD
             distDen = self.PSD / (self.PSDbounds[1:] - self.PSDbounds[:-1])
             rOld = 0.5 * (self.PSDbounds[1:] + self.PSDbounds[:-1])
             self.reset(False)
             self.PSD = np.interp(self.PSDsize, rOld, distDen) * (self.PSDbounds[1:] - self.PSDbounds[:-1])
             newV = self.ThirdMoment()
+            if newV == 0 and oldV != 0:
+                #Interpolation can miss every populated class of a sparse PSD on a coarser grid
+                #In that case, move each old size class to the new class that contains its center (by volume)
+                vol, _ = np.histogram(rOld, self.PSDbounds, weights=oldPSD * rOld**3)
+                self.PSD = vol / self.PSDsize**3
+                newV = self.ThirdMoment()
             if newV != 0:
                 self.PSD *= oldV / newV
             else:
